@@ -76,6 +76,8 @@ def run_diff(old, new, opts):
     kw = {k: v for k, v in opts.items() if k != "cmp"}
     if opts.get("cmp"):
         kw["meta_cmp_key"] = cmp_key_of(opts["cmp"])
+    if kw.get("roots") is not None:
+        kw["roots"] = [tuple(r) for r in kw["roots"]]
 
     def f():
         return [(c.typ, list(c.old.key) if c.old else None, list(c.new.key) if c.new else None)
@@ -751,12 +753,76 @@ def check_save(ctx, n):
         ctx.count("save: diffed pair")
 
 
+# ------------------------------------------------------------------ diff(roots=[...]): the comparison restricted to sub-trees
+
+
+def rand_roots(rng, old, new):
+    """1-4 pairwise disjoint root keys (none a prefix of another): directories (explicit or implicit), files, keys that
+    are a file on one side and a directory on the other, keys present on one side only, now and then a key on neither"""
+    cands = sorted({tuple(k[:i]) for k, _, _ in list(old or []) + list(new or []) for i in range(1, len(k) + 1)})
+    cands += [("no-such-dir",), ("no-such-dir", "deeper")]
+    if cands[:-2] and rng.random() < 0.5:
+        cands.append(rng.choice(cands[:-2]) + ("missing-below",))
+    rng.shuffle(cands)
+    r = rng.random()
+    want = 1 if r < 0.12 else 2 if r < 0.6 else 3 if r < 0.85 else 4
+    roots = []
+    for c in cands:
+        if len(roots) >= want:
+            break
+        if any(c[: len(x)] == x or x[: len(c)] == c for x in roots):
+            continue
+        roots.append(c)
+    return roots
+
+
+def check_roots(ctx, pairs):
+    """diff(old, new, roots=R) for pairwise disjoint R is the diff of the two indexes restricted to the keys at or below a
+    root: the property itself (every such key once, classified key by key, renames paired, nothing hidden) evaluated on what
+    diff() reported, the diff of the restricted indexes as reference, self-diff and swap under the same roots.  Oracle only."""
+    rng = ctx.rng
+    for old, new, opts in pairs:
+        if not old and not new:
+            continue
+        roots = rand_roots(rng, old, new)
+
+        def below(k, roots=roots):
+            return any(tuple(k[: len(r)]) == r for r in roots)
+
+        ropts = dict(opts, roots=[list(r) for r in roots])
+        old_r = None if old is None else [x for x in old if below(x[0])]
+        new_r = None if new is None else [x for x in new if below(x[0])]
+        case = {"diff_roots": [list(r) for r in roots], "old": None if old is None else [ent_json(s) for s in old],
+                "new": None if new is None else [ent_json(s) for s in new], "opts": opts}
+        ctx.case(case, nontrivial=bool(old_r) and bool(new_r) and len(roots) > 1)
+        ctx.count("roots: %d disjoint roots" % len(roots))
+        if sum(1 for r in roots if any(tuple(k[: len(r)]) == r for k, _, _ in list(old_r or []) + list(new_r or []))) > 1:
+            ctx.count("roots: at least two roots with entries at or below them")
+        impl = run_diff(old, new, ropts)
+        if isinstance(impl, dict):
+            ctx.oracle(False, case, {"why": "diff(roots=...) raised", "impl": impl})
+            continue
+        # nothing outside the roots is reported
+        for t, ok, nk in impl:
+            ctx.oracle(all(below(k) for k in (ok, nk) if k is not None), case,
+                       {"why": "diff(roots=...) reports a key that is not at or below any root", "change": [t, ok, nk]})
+        # the property on the restricted indexes: once each, correctly classified, renames paired, nothing hidden
+        oracle_pair(ctx, case, old_r, new_r, ropts, impl)
+        # ... and the multiset of changes is that of diffing the restricted indexes from the top
+        exp = run_diff(old_r, new_r, opts)
+        ctx.oracle(impl == exp, case, {"why": "diff(roots=R) differs from the diff of the indexes restricted to the keys at or below R",
+                                       "roots_only": [x for x in impl if x not in exp][:6] if not isinstance(exp, dict) else exp,
+                                       "restricted_only": [x for x in exp if x not in impl][:6] if not isinstance(exp, dict) else None,
+                                       "counts": [len(impl), len(exp) if not isinstance(exp, dict) else None]})
+        self_and_swap(ctx, case, old, new, ropts, impl)
+
+
 def run(ctx):
     ctx.rule = (
         "exhaustive _diff_entry table (26 entry shapes per side x 8 option combinations); pairs of well-formed indexes derived from "
         "one another (modify/delete/add, file<->directory kind changes at any depth, implicit or explicit directory entries with "
         "consistent hashes, missing hash/meta, one side None or empty) x random option combinations; rename workloads with duplicate "
-        "hashes; the same pairs behind filtered views (filter on the first key part, accepting or rejecting the root key) against the diff of the restricted indexes; index.save() on generated indexes against IndexSave.saveDirs (entries, stored listing bytes) and the hash-only diff of two saved indexes against the flat comparison of their file hashes; comparison keys that map a real Meta to None when it lacks a field (push's _meta_checksum for etag/checksum/md5, `lambda m: m.size` / `.version_id`): exhaustive _diff_entry table and derived index pairs whose file metadata carry, lack or disagree on those fields (hashed and unhashed entries; meta-only, hash-only, hash+meta), against the key-by-key reference, with self-diff and swap. non-trivial = both sides non-empty; distinct = sha256 of the case"
+        "hashes; the same pairs behind filtered views (filter on the first key part, accepting or rejecting the root key) against the diff of the restricted indexes; index.save() on generated indexes against IndexSave.saveDirs (entries, stored listing bytes) and the hash-only diff of two saved indexes against the flat comparison of their file hashes; comparison keys that map a real Meta to None when it lacks a field (push's _meta_checksum for etag/checksum/md5, `lambda m: m.size` / `.version_id`): exhaustive _diff_entry table and derived index pairs whose file metadata carry, lack or disagree on those fields (hashed and unhashed entries; meta-only, hash-only, hash+meta), against the key-by-key reference, with self-diff and swap; diff(roots=R) with 1-4 pairwise disjoint roots (directories, files, kind-changed, one-sided and absent keys) over the derived pairs and rename workloads x option combinations: every key at or below a root once and correctly classified, nothing outside the roots, equal to the diff of the restricted indexes, self-diff and swap. non-trivial = both sides non-empty; distinct = sha256 of the case"
     )
     ctx.assumptions = ["indexes are well-formed: every proper prefix of an entry key is absent or a directory entry",
                        "directory hashes are consistent with their children (for the unchanged-subtree shortcut)"]
@@ -769,6 +835,8 @@ def run(ctx):
     check_save(ctx, ctx.n(60, 800))
     proj_table(ctx)
     check_projected(ctx, ctx.n(300, 4000))
+    m = ctx.n(260, 3000)
+    check_roots(ctx, pairs[:m] + pairs[n: n + ctx.n(60, 700)])
 
 
 def search(ctx):
